@@ -101,7 +101,9 @@ def build_ir(spec):
             "returns": OrderedDict((("return_type", {"doc": spec.get("ret_doc", "the result"), "typ": "int", "default": "```a```"}),))}
 
 
-KINDS = ["rest", "numpydoc", "google", "class", "function", "function_doctypes", "argparse"]
+# rest_strip: ReST docstring read back with emit_default_doc=False (the parser removes the default sentence from the prose);
+# class_edd: class emitted with default text on (parse.class_ removes the sentence)
+KINDS = ["rest", "numpydoc", "google", "class", "function", "function_doctypes", "argparse", "rest_strip", "class_edd"]
 
 
 def main():
@@ -124,12 +126,12 @@ def main():
                   "obs": {} if (eff == L and isinstance(eff, int)) else {"obs.fail": "line_length_not_applied", "obs.got": repr(eff)}})
 
     def conv(kind, ir, ww):
-        k = "function" if kind.startswith("function") else kind
-        opts = {"edd": kind in rt.DOC_KINDS, "ww": ww}
+        k = "function" if kind.startswith("function") else {"rest_strip": "rest", "class_edd": "class"}.get(kind, kind)
+        opts = {"edd": kind in rt.DOC_KINDS or kind in ("rest_strip", "class_edd"), "ww": ww}
         if kind == "function_doctypes":
             opts["inline"] = False
         text = rt.emit_kind(k, ir, opts)
-        return text, rm.project(rt.parse_kind(k, text))
+        return text, rm.project(rt.parse_kind(k, text, {"pedd": False} if kind == "rest_strip" else None))
 
     def nows(s):
         return None if s is None else "".join(s.split())
